@@ -24,12 +24,12 @@ CHECKS = {
     ref="§4 C11"),
   "C12": dict(
     text="The real mujoco_warp.forward() is run natively on corpus models with the integration state concrete and every other Data cell that the call (re)computes holding a fresh symbolic 'stale' value (arbitrary leftovers of an arbitrary earlier history); every kernel launch is interpreted thread by thread, the constraint solver (outside the modelled subset) is executed by the real implementation under two different stale fills. For every result cell (assembled constraint rows < nefc, contacts < nacon, forces, accelerations, sensor data, ...) the solver decides whether two different stale contents can yield different values (substitution 2-safety query). sat models are replayed on two real Data objects with equal state and different stale contents.",
-    note="Bounds: the corpus models/variants listed in the evidence, nworld=1, capacities as created by put_data; sleep disabled (property). Cells the call never writes (poses of static geoms etc.) are constants of the Data object, not stale. The sticky overflow word is kept equal. Inside solver.solve only a two-fill differential run (not a solver verdict) shows independence — stated as a side condition in the evidence. One known finding (equality-row aref uses cvel/cdof_dot of the previous call). step()'s integrators and set_state copying are C08/C15.",
+    note="Bounds: the corpus models/variants listed in the evidence, nworld=1, capacities as created by put_data; sleep disabled (property). Cells the call never writes (poses of static geoms etc.) are constants of the Data object, not stale. The sticky overflow word is kept equal. Inside solver.solve only a two-fill differential run (not a solver verdict) shows independence — stated as a side condition in the evidence. One known finding (equality-row aref uses cvel/cdof_dot of the previous call). step()'s integrators and set_state copying are C08/C15. Every real launch / real host call is repeated until two consecutive executions agree bit for bit (a result is only used if reproducible). In addition the dense Newton Hessian assembly (tile kernels) is decided symbolically with the block-collective tile interpreter: ctx.h equals M + sum over live QUADRATIC rows and is independent of every efc cell of rows >= nefc (units hessian/*, shared with C06).",
     technique="symbolic execution of the real host pipeline with symbolic stale memory + SMT substitution (2-safety) queries",
     ref="§4 C12"),
   "C13": dict(
     text="The real io.reset_data is run natively with every Data array and the reset mask symbolic (dense cells, nworld=2, tiny models incl. na>nu, mocap, weld equality, userdata, delay buffers, sleep); each launched kernel is interpreted thread by thread. Per field and world the solver decides: selected => equals a fresh make_data; unselected => unchanged; contacts of unselected worlds unchanged, none appear; sat models are replayed on the real reset_data.",
-    note="Bounds: 2 worlds, 4 model/mask configurations, naconmax=4, njmax=4. Pre-state arbitrary except 0<=nacon<=naconmax and listed contacts' worldid in range. Sleep-derived arrays recomputed by update_sleep are excluded from 'unchanged'. Three known findings recorded (nacon zeroed, phantom contacts, history not reset). Subsequent-trajectory equality follows from C12 and is not re-derived here.",
+    note="Bounds: 2 worlds, 4 model/mask configurations, naconmax=4, njmax=4. Pre-state arbitrary except 0<=nacon<=naconmax and listed contacts' worldid in range. Sleep-derived arrays recomputed by update_sleep are excluded from 'unchanged'. Three known findings recorded (nacon zeroed, phantom contacts, history not reset). Subsequent-trajectory equality follows from C12 and is not re-derived here. A K-mode unit (sizes/reset_nworld) executes the kernel defined inside reset_data for one generic world with all model sizes symbolic (<= 4, only relation nv <= nq): every qpos/qvel/ctrl/act/... element below its size is reset.",
     technique="symbolic execution of the real host function with interpreted kernel launches (dense memory) + SMT equality queries per field",
     ref="§4 C13"),
   "C17": dict(
